@@ -37,7 +37,7 @@ func TestMain(m *testing.M) {
 // ---- fixed (exhaustively enumerated) workloads ----------------------------------
 
 func topic(name string, parts int32) Step { return Step{Op: "topic", Topic: name, Parts: parts} }
-func parts(name string, n int32) Step    { return Step{Op: "parts", Topic: name, Parts: n} }
+func parts(name string, n int32) Step     { return Step{Op: "parts", Topic: name, Parts: n} }
 func produce(prod int, t string, p int32, n int) Step {
 	return Step{Op: "produce", Prod: prod, Topic: t, Part: p, N: n}
 }
@@ -631,7 +631,11 @@ func (e *explorer) evalWith(c Case, restart, second, strict bool) *failure {
 	// second crash: the restarted process stops again while its recovery is
 	// writing (truncating torn tails, removing temp files)
 	if second && c.Then == nil {
-		if f := e.recoveryCrashes(c, fs.Log(), out.recEnd); f != nil {
+		l2 := fs.Log()
+		if stateHash(l2.Materialize(len(l2.Ops), nil)) != stateHash(fs) {
+			return asFailure(fmt.Errorf("crashfs: replaying the log of a materialised file system (genesis %d, %d ops) does not reproduce it", l2.Genesis, len(l2.Ops)))
+		}
+		if f := e.recoveryCrashes(c, l2, out.recEnd); f != nil {
 			return f
 		}
 	}
@@ -740,7 +744,7 @@ func newExplorer(name string, m *Model, l *crashfs.Log, live *Snap) *explorer {
 
 func explore(t tb, s Script) *explorer {
 	t.Helper()
-	m, live, fs, err := run(s)
+	m, liveSnap, fs, err := run(s)
 	if err != nil {
 		if isInfra(err) {
 			infra(t, err)
@@ -754,7 +758,18 @@ func explore(t tb, s Script) *explorer {
 	}
 	l := fs.Log()
 	ev.ClassN("oplog_ops", int64(len(l.Ops)))
-	return newExplorer(s.Name, m, l, live)
+	// engine self-check: replaying the whole log must reproduce the live file
+	// system byte for byte
+	live, again := fs.Files(), l.Materialize(len(l.Ops), nil).Files()
+	if len(live) != len(again) {
+		infra(t, fmt.Errorf("crashfs: replaying the log gives %d files, the live file system has %d", len(again), len(live)))
+	}
+	for name, data := range live {
+		if other, ok := again[name]; !ok || !bytes.Equal(data, other) {
+			infra(t, fmt.Errorf("crashfs: replaying the log gives a different %s (%d bytes, live %d bytes, present=%v)", name, len(other), len(data), ok))
+		}
+	}
+	return newExplorer(s.Name, m, l, liveSnap)
 }
 
 func report(t tb, f *failure) {
